@@ -339,7 +339,7 @@ fn check_program(idx: u64, rules: &[Rule], rbc: Option<u8>, layout: Layout, word
 /// Programs with an unconditional-stop word inside a chain. Expectation: TeX (the word is never
 /// executed). If that fails, the case is compared with the adjusted expectation "the stop word is
 /// executed as the ligature/kern command its op and remainder bytes spell" (what TFtoPL §91 enters
-/// into its loop-check table, and what compiler.rs reimplements): agreement = finding class D23.
+/// into its loop-check table, and what compiler.rs reimplements): agreement = finding class D40.
 fn check_stop_word_program(idx: u64, rules: &[Rule], rbc: Option<u8>, words: &[Vec<u8>], only: Option<(&[u8], bool, Option<u8>)>, acc: &mut Acc, sh: &Shared) {
     let mut tex = Acc::default();
     check_program(idx, rules, rbc, Layout::StopWord, words, only, &mut tex, sh, false);
@@ -356,9 +356,9 @@ fn check_stop_word_program(idx: u64, rules: &[Rule], rbc: Option<u8>, words: &[V
         tex.fails.clear();
         tex.fail_count = 0;
         tex.classes.clear();
-        tex.class("differs from TeX, equals TFtoPL's phantom reading of the stop word (D23)");
+        tex.class("differs from TeX, equals TFtoPL's phantom reading of the stop word (D40)");
         acc.merge(tex);
-        let e = acc.known.entry("D23".into()).or_insert((0, u64::MAX, Value::Null));
+        let e = acc.known.entry("D40".into()).or_insert((0, u64::MAX, Value::Null));
         e.0 += n;
         if idx < e.1 {
             e.1 = idx;
